@@ -409,6 +409,19 @@ int _vnacal_new_add_common(vnacal_new_add_arguments_t vnaa)
     assert(!vnaa.vnaa_s_is_diagonal || s_rows == s_columns);
 
     /*
+     * Only T16 and U16 can use a partially known (rectangular) S matrix.
+     * In the other types, the unknown cells join the ports of the standard
+     * into one block and every equation of the block needs them.
+     */
+    if (s_rows != s_columns &&
+	    VL_TYPE(vlp) != VNACAL_T16 && VL_TYPE(vlp) != VNACAL_U16) {
+	_vnacal_error(vcp, VNAERR_USAGE, "%s: the S matrix must be square "
+		"with %s error terms", function,
+		vnacal_type_to_name(VL_TYPE(vlp)));
+	goto out;
+    }
+
+    /*
      * Make sure a port map was provided if the S matrix is smaller than
      * the calibration matrix.
      */
